@@ -35,6 +35,14 @@ pub enum Caught<T> {
     Panic { msg: String, loc: String },
     Fuel { site: String, used: u64 },
     ChanBudget { calls: u64 },
+    /// a simulated party (resolver, caller) exceeded its callback budget
+    Budget { what: &'static str, n: u64 },
+}
+
+/// Unwind payload for step budgets owned by simulated parties other than the byte channel.
+pub struct StepBudgetExceeded {
+    pub what: &'static str,
+    pub n: u64,
 }
 
 /// Runs `f` with the step counter armed; classifies how it ended. Returns ticks used.
@@ -50,6 +58,8 @@ pub fn guarded<T>(fuel: u64, f: impl FnOnce() -> T) -> (Caught<T>, u64) {
                 (Caught::Fuel { site: f.site.to_string(), used: f.used }, used)
             } else if let Some(c) = payload.downcast_ref::<ChannelBudgetExceeded>() {
                 (Caught::ChanBudget { calls: c.calls }, used)
+            } else if let Some(b) = payload.downcast_ref::<StepBudgetExceeded>() {
+                (Caught::Budget { what: b.what, n: b.n }, used)
             } else {
                 let (msg, loc) = LAST_PANIC.with(|p| p.borrow_mut().take()).unwrap_or_else(|| ("<unknown panic>".into(), String::new()));
                 (Caught::Panic { msg, loc }, used)
